@@ -28,7 +28,7 @@ ASSUMPTIONS = ["extractor-failure tracebacks: presence, class and text are check
                "an extractor that raises an exception of a class it is itself registered for is generated only "
                "when cfg.self_covered is drawn (known defect D)"]
 
-EXC = P.DEFAULT_EXC + ["StrRaises", "ExtractMe", "ExtractSub"]
+EXC = P.DEFAULT_EXC + ["StrRaises", "ExtractMe", "ExtractSub", "CollideErr"]
 EXTRACTABLE = ["ExtractMe", "ExtractSub", "AppError", "AppSubError", "ValueError", "OSError", "KeyError",
                "AppBase", "CancelledError", "GeneratorExit", "Exception"]
 
@@ -55,6 +55,7 @@ def draw_cfg(st, prop="C03"):
         "w_reenter": st.choose(2, "reenter"),
         "call_budget": 60000,
         "w_xreg": st.choose(2, "xreg"),
+        "mutate_exc": True,
         "extractable": EXTRACTABLE,
     }
     styles = [i for i in range(len(P.ACT_STYLES)) if i == 0 or st.choose(3, "style-on")]
@@ -75,6 +76,9 @@ def draw_cfg(st, prop="C03"):
         mode = "raise" if st.choose(4, "xmode") == 3 else "fields"
         if cname not in [c for c, _m in ex]:
             ex.append([cname, mode])
+    if st.choose(2, "collide"):
+        # an extractor whose result collides with the fields eliot itself puts on a failed end message
+        ex.append(["CollideErr", "collide"])
     cfg["extractors"] = ex
     return cfg
 
